@@ -2,12 +2,12 @@
 from harness.props.ptrcommon import *
 PROP = "C04"
 COQ_FILES = ["Machine.v", "Ptr.v", "Ptr_proofs.v"]
-DRIVERS = drivers("CHAIN", ["xlate"])
+DRIVERS = drivers("CHAIN", ["xlate"], CFG_XL)
 
 
 def gen_cases(tier, rng):
     cases = []
-    for cfg, c in CFG.items():
+    for cfg, c in CFG_XL.items():
         A, Bb = c["bases"]
         size = c["size"]
         offs = {0, 1, 2, 3, 4, 7, 8, 15, 16, 4095, 4096, 4097, size // 2 - 1, size // 2, size // 2 + 1, size - 8, size - 4, size - 2, size - 1}
